@@ -4,6 +4,7 @@
 //! daemonsim <mode> --seed N --count K --shard i/n --out f [--dump file]
 //! modes: c07 c08 c09 c10 c12 c13 c01
 
+mod realpoller;
 mod rig;
 mod wire;
 mod world;
@@ -627,6 +628,7 @@ fn main() {
             mode_c08_c09(&a, "C09")
         }
         "c12" | "c13" | "c01" => world::run(&mode, &a),
+        "c13real" => realpoller::run(&a),
         m => panic!("unknown mode {:?}", m),
     };
     v["wall_s"] = json!((clock::real_clock_ns(libc::CLOCK_MONOTONIC) - t0) as f64 / 1e9);
